@@ -2,4 +2,6 @@ import PropsR.Gen.KernelsReal
 import PropsR.Gen.ReflectorsReal
 import PropsR.C02
 import PropsR.C08
+import PropsR.Gen.HitTimeReal
+import PropsR.C08Force
 import PropsR.C16
